@@ -2043,6 +2043,12 @@ func VerifRunRegistry(t *testing.T, makeKV VMakeDB) {
 	for v := 0; v < nvar; v++ {
 		for pi := range vMixedPrefixes {
 			for xi := range vMixedEntries {
+				// quick tier: on prefixes that end in a settled non-AMP invoice (most
+				// entry points are no-ops there) only three entry points
+				terminal := pi == 3 || pi == 5 || pi == 6
+				if vTier() != "thorough" && terminal && xi != 0 && xi != 1 && xi != 8 {
+					continue
+				}
 				for bi, b := range backends {
 					if only != "" && only != b.name {
 						continue
